@@ -120,7 +120,7 @@ structure ReqLive where
   method : Int := -1                    -- HTTP_METHOD_UNSET
   version : Int := -1                   -- HTTP_VERSION_UNSET
   handlerModule : Bool := false         -- r->handler_module != NULL
-  pluginCtx : List (Option PCtx) := []  -- r->plugin_ctx[i] (NULL = none)
+  pluginCtx : List (Nat × PCtx) := []   -- the non-NULL slots (i, r->plugin_ctx[i])
   conf : Conf := {}
   rqstHeaderLen : Nat := 0
   rqstHtags : List HId := []            -- set bits of r->rqst_htags, ascending
@@ -173,8 +173,7 @@ deriving Repr, DecidableEq
 
 /-- request_init_data() on a zeroed object -/
 def ReqSt.init (e : SrvEnv) : ReqSt :=
-  { pluginCtx := List.replicate (e.nPlugins + 1) none,
-    condCache := List.replicate e.nContexts {},
+  { condCache := List.replicate e.nContexts {},
     conf := e.defaults }
 
 /-! ### id sets (bit fields rqst_htags / resp_htags) -/
@@ -298,7 +297,15 @@ def responseReset (h : HdrIds) (s : ReqSt) : ReqSt :=
 
 /-- plugins_call_handle_request_reset(): every module that keeps per-request state in
     r->plugin_ctx[id] clears its slot in its handle_request_reset hook -/
-def pluginsReset (s : ReqLive) : ReqLive := { s with pluginCtx := s.pluginCtx.map fun _ => none }
+def pluginsReset (s : ReqLive) : ReqLive := { s with pluginCtx := [] }
+
+def pctxGet (s : ReqLive) (i : Nat) : Option PCtx :=
+  match s.pluginCtx.find? (·.1 = i) with
+  | some e => some e.2
+  | none => none
+
+def pctxSet (s : ReqLive) (i : Nat) (c : PCtx) : ReqLive :=
+  { s with pluginCtx := (i, c) :: s.pluginCtx.filter (·.1 ≠ i) }
 
 /-- request_reset() -/
 def requestReset (h : HdrIds) (e : SrvEnv) (s : ReqSt) : ReqSt :=
